@@ -148,7 +148,7 @@ fn subsets(n: usize, r: &mut SmallRng, cap: usize) -> Vec<Vec<usize>> {
 pub fn c03(seed: u64, thorough: bool, maxruns: u64, tw: &mut TraceWriter) -> Cov {
     let mut master = SmallRng::seed_from_u64(seed);
     let mut cov = Cov::default();
-    let sizes: &[usize] = if thorough { &[2, 3, 4, 5, 6, 8] } else { &[2, 3, 4, 5] };
+    let sizes: &[usize] = if thorough { &[2, 3, 4, 5, 6] } else { &[2, 3, 4, 5] };
     let mut run = 0u64;
     for &n in sizes {
         let mut cfg = base_cfg();
@@ -232,8 +232,9 @@ pub fn c03(seed: u64, thorough: bool, maxruns: u64, tw: &mut TraceWriter) -> Cov
                 }
             }
         }
-        let stride = if thorough { 1 } else { 3.max(window / 12) };
-        let subs = subsets(n, &mut master, if thorough { 14 } else { 5 });
+        // thorough: every event index for n <= 3, a three times denser sampling than quick beyond
+        let stride = if thorough { if n <= 3 { 1 } else { 2.max(window / 30) } } else { 3.max(window / 12) };
+        let subs = subsets(n, &mut master, if thorough { 8 } else { 5 });
         for sub in &subs {
             for k in (0..window).step_by(stride) {
                 for leave in [false, true] {
@@ -273,7 +274,7 @@ pub fn c03(seed: u64, thorough: bool, maxruns: u64, tw: &mut TraceWriter) -> Cov
 pub fn c04(seed: u64, thorough: bool, maxruns: u64, nlist: &[usize], tw: &mut TraceWriter) -> Cov {
     let mut master = SmallRng::seed_from_u64(seed);
     let mut cov = Cov::default();
-    let sizes: &[usize] = if !nlist.is_empty() { nlist } else if thorough { &[2, 3, 4, 5, 6, 8] } else { &[2, 3, 4, 5, 6] };
+    let sizes: &[usize] = if !nlist.is_empty() { nlist } else if thorough { &[2, 3, 4, 5, 6, 7] } else { &[2, 3, 4, 5, 6] };
     let mut run = 0u64;
     for &n in sizes {
         // latency regimes: (0) well below rtt/4  (1) round trips between rtt and (period-rtt)/2
@@ -312,7 +313,8 @@ pub fn c04(seed: u64, thorough: bool, maxruns: u64, nlist: &[usize], tw: &mut Tr
                         (m0, sim.mid)
                     };
                     let count = (m1 - m0) as usize;
-                    let stride = if thorough { 1 } else { 1.max(count / if n <= 4 { 25 } else { 12 }) };
+                    // thorough: every datagram for n <= 3, three times denser than quick beyond
+                    let stride = if thorough { if n <= 3 { 1 } else { 1.max(count / 40) } } else { 1.max(count / if n <= 4 { 25 } else { 12 }) };
                     for d in (1..=count).step_by(stride) {
                         if cov.runs >= maxruns {
                             return cov;
